@@ -449,7 +449,7 @@ s_start(struct Storage* st)
     // one writer per destination (as the raw writer's file lock): a second open instance of the same storage device cannot
     // start while the first is running - a failure that comes from the client's device choices, not from a device fault
     if (sto_busy[m->s]) {
-        ev("{\"e\":\"DevUse\",\"kind\":\"sto\",\"hd\":%d,\"call\":\"start_refused\"}", m->h);
+        ev("{\"e\":\"DevUse\",\"kind\":\"sto\",\"hd\":%d,\"call\":\"start_refused\",\"s\":%d}", m->h, m->s);
         vs_yield("sto_start");
         return DeviceState_AwaitingConfiguration;
     }
